@@ -9,8 +9,8 @@ VARIABLE case
 
 Nodes == {0, 9, 10, 99, 100, 254, 255}
 Childs == {0, 1, 254, 255}
-Types == { <<48>>, <<51>>, <<52>>, <<49,55>>, <<52,57>>, <<45,53>>,
-           <<49,48,48,48,48,48,48,48,48,48,48,48,48,48,48,48,48,48,48,48,48>> }   \* 0 3 4 17 49 -5 10^20
+Types == { <<48>>, <<51>>, <<52>>, <<57>>, <<49,55>>, <<52,57>>, <<45,53>>,
+           <<49,48,48,48,48,48,48,48,48,48,48,48,48,48,48,48,48,48,48,48,48>> }   \* 0 3 4 9 17 49 -5 10^20
 Chars == {97, 59, 32, 48, 30, 0}
 Payloads == UNION {[1..k -> Chars] : k \in 0..PLen}
 Msgs == {m \in [n : Nodes, c : Childs, cmd : 0..4, ack : {0, 1}, t : Types, p : Payloads] : WellFormedMsg(m)}
